@@ -385,6 +385,11 @@ func TryLockable(obj any) bool {
 			return true
 		}
 		return false
+	case onceWait:
+		m.r.mu.Lock()
+		d := m.st.done
+		m.r.mu.Unlock()
+		return d
 	case rlock:
 		if m.m.TryRLock() {
 			m.m.RUnlock()
@@ -494,4 +499,50 @@ func At(site string) {
 	if r := cur.Load(); r != nil {
 		r.self().At = site
 	}
+}
+
+type onceSt struct {
+	running, done bool
+}
+
+type onceWait struct {
+	r  *Run
+	st *onceSt
+}
+
+var onceStates sync.Map // *sync.Once -> *onceSt (per process; a Once belongs to one run's objects)
+
+// OnceDo replaces o.Do(f): sync.Once blocks latecomers on an internal mutex, which is not a durable
+// block for synctest, so a latecomer parks here until the first caller is done.
+func OnceDo(o *sync.Once, f func(), site string) {
+	r := cur.Load()
+	if r == nil {
+		o.Do(f)
+		return
+	}
+	v, _ := onceStates.LoadOrStore(o, &onceSt{})
+	st := v.(*onceSt)
+	if !r.Mask[KPreLock] {
+		r.park(KPreLock, site, nil)
+	}
+	for {
+		r.mu.Lock()
+		if st.done {
+			r.mu.Unlock()
+			return
+		}
+		if !st.running {
+			st.running = true
+			r.mu.Unlock()
+			break
+		}
+		r.mu.Unlock()
+		r.park(KLock, site, onceWait{r, st})
+	}
+	defer func() {
+		r.mu.Lock()
+		st.done, st.running = true, false
+		r.mu.Unlock()
+	}()
+	o.Do(f)
 }
